@@ -25,10 +25,36 @@ Has(r, f) == f \in DOMAIN r
 
 Key(r, v)  == <<r.grp[v]>> \o r.idx[v]
 Keys(r)    == {Key(r, v) : v \in 1..r.nvars}
-\* groups are numbered by first appearance, so empty groups get no number
-Dense(G, g) == 1 + Cardinality({h \in 1..(g - 1) : G[h] # {}})
-ExpKeys(G) == UNION {{<<Dense(G, g)>> \o t : t \in G[g]} : g \in 1..Len(G)}
+\* The recorded group numbers follow the order in which the implementation created its (non-empty)
+\* groups; the property does not fix that order.  A *matching* sends every non-empty documented
+\* group to a recorded group with the same index set, injectively.  The formula is right if it is
+\* right under some matching (there is exactly one unless two documented groups have the same
+\* index set, e.g. p and q of the relativized PHP with m = r = n).
+NonEmpty(G) == {h \in 1..Len(G) : G[h] # {}}
+ObsGroups(r) == {r.grp[v] : v \in 1..r.nvars}
+ObsIdx(r, g) == {r.idx[v] : v \in {w \in 1..r.nvars : r.grp[w] = g}}
+\* built group by group (a matching is a sequence indexed by documented group, 0 for empty groups).
+\* Three or more documented groups with the same index set (the k copies of Pitfall) are taken in
+\* creation order: trying all k! permutations of interchangeable copies is pointless.
+RECURSIVE MatchSeqs(_, _, _)
+MatchSeqs(G, OI, acc) ==
+    LET h == Len(acc) + 1 IN
+    IF h > Len(G) THEN {acc}
+    ELSE IF G[h] = {} THEN MatchSeqs(G, OI, Append(acc, 0))
+    ELSE LET big == Cardinality({k \in 1..Len(G) : G[k] = G[h]}) >= 3
+             cands == {x \in DOMAIN OI :
+                          /\ OI[x] = G[h]
+                          /\ \A k \in 1..(h - 1) : acc[k] # x
+                          /\ big => \A k \in 1..(h - 1) : G[k] = G[h] => acc[k] < x}
+         IN  UNION {MatchSeqs(G, OI, Append(acc, x)) : x \in cands}
+Matchings(r, G) == MatchSeqs(G, [g \in ObsGroups(r) |-> ObsIdx(r, g)], <<>>)
+\* every recorded variable belongs to a documented group
+Covered(r, G) == Cardinality(NonEmpty(G)) = Cardinality(ObsGroups(r))
 VarTable(r) == [k \in Keys(r) |-> CHOOSE v \in 1..r.nvars : Key(r, v) = k]
+\* identifier of the named variable <<documented group>> \o index under matching M
+WTable(r, G, M) ==
+    LET V == VarTable(r)
+    IN  [k \in UNION {{<<g>> \o t : t \in G[g]} : g \in NonEmpty(G)} |-> V[<<M[k[1]]>> \o Tail(k)]]
 
 Sat(r, a) == IF r.cls = "CNF" THEN SatCNF(a, r.clauses) ELSE SatOPB(a, r.constraints)
 WF(r)     == IF r.cls = "CNF" THEN WellFormed(r.nvars, r.clauses)
@@ -80,9 +106,9 @@ Groups(r) ==
 Obj(r, V, a) ==
     LET p == r.par
         G == Groups(r)
-        X1(g, x)       == a[V[<<Dense(G, g), x>>]]
-        X2(g, x, y)    == a[V[<<Dense(G, g), x, y>>]]
-        XT(g, t)       == a[V[<<Dense(G, g)>> \o t]]
+        X1(g, x)       == a[V[<<g, x>>]]
+        X2(g, x, y)    == a[V[<<g, x, y>>]]
+        XT(g, t)       == a[V[<<g>> \o t]]
     IN
     CASE r.fam = "php"        -> PHPObj(p.m, p.n, p.fun, p.onto, LAMBDA x, y : X2(1, x, y))
       [] r.fam = "gphp"       -> GPHPObj(r.graph, p.fun, p.onto, LAMBDA x, y : X2(1, x, y))
@@ -114,7 +140,7 @@ Variants(r) == IF r.fam = "vdw" /\ Len(r.par.K) = 2 THEN {1, 2} ELSE {0}
 ObjVariant(r, V, a, w) ==
     IF w = 0 THEN Obj(r, V, a)
     ELSE LET G == Groups(r)
-             x(i) == a[V[<<Dense(G, 1), i>>]]
+             x(i) == a[V[<<1, i>>]]
          IN  \* w = 1: "x(i) true" means colour 1; w = 2: it means colour 2
              VdwColObj(r.par.N, r.par.K, LAMBDA i, c : IF (c = w) THEN x(i) ELSE ~x(i))
 
@@ -126,7 +152,7 @@ Mode(r) == CASE r.fam = "domset" -> "projection"
              [] OTHER            -> "pointwise"
 
 \* documented axioms, with group positions turned into the dense group numbers
-DenseLit(G, L) == <<L[1], Dense(G, L[2])>> \o SubSeq(L, 3, Len(L))
+DenseLit(M, L) == <<L[1], M[L[2]]>> \o SubSeq(L, 3, Len(L))
 Axioms(r) ==
     LET p == r.par IN
     CASE r.fam = "op"      -> GOPAxioms(CompleteGraph(p.n), p.total, p.smart, p.plant, p.knuth)
@@ -136,7 +162,7 @@ Axioms(r) ==
       [] r.fam = "sstone"  -> StoneAxioms(r.graph, r.graph2)
       [] r.fam = "cpls"    -> CPLSAxioms(p.a, p.b, p.c)
       [] r.fam = "pitfall" -> PitfallAxioms(Gamma(r), p.ny, p.nz, p.k)
-NamedAxioms(r) == LET G == Groups(r) IN {{DenseLit(G, L) : L \in C} : C \in Axioms(r)}
+NamedAxioms(r, M) == {{DenseLit(M, L) : L \in C} : C \in Axioms(r)}
 ImplNamed(r) == {{<<IF l > 0 THEN 1 ELSE -1>> \o Key(r, Abs(l)) : l \in Range(c)} : c \in Range(r.clauses)}
 \* documented satisfiability of the "axioms" families
 ExpectedSat(r) ==
@@ -168,15 +194,8 @@ MustRefuse(r) ==
       [] r.fam \in {"peb", "stone", "sstone"} -> ~IsDag(r.graph)   \* must be acyclic, topologically sorted
       [] OTHER -> FALSE
 
-Verdict(r) ==
-    IF r.outcome = "ValueError"
-    THEN (IF MayRefuse(r) \/ MustRefuse(r) THEN "ok" ELSE "unexpected_ValueError")
-    ELSE IF r.outcome # "ok" THEN "unexpected_" \o r.outcome
-    ELSE IF MustRefuse(r) THEN "should_have_been_refused"
-    ELSE IF ~WF(r) THEN "literal_out_of_range"
-    ELSE IF Cardinality(Keys(r)) # r.nvars THEN "names_not_distinct"
-    ELSE IF Keys(r) # ExpKeys(Groups(r)) THEN "variables_differ_from_documented"
-    ELSE LET V == VarTable(r)
+VerdictWith(r, G, M) ==
+         LET V == WTable(r, G, M)
              C == Cands(r)
          IN  CASE Mode(r) = "pointwise" ->
                     IF \E w \in Variants(r) : \A a \in C : Sat(r, a) <=> ObjVariant(r, V, a, w) THEN "ok"
@@ -188,8 +207,8 @@ Verdict(r) ==
                         (IF Has(r, "cand") \/ ((\E a \in C : Sat(r, a)) <=> ExpectedSat(r)) THEN "ok"
                          ELSE "documented_satisfiability_differs")
                     ELSE IF ~DrawOK(r) THEN "drawn_graph_not_regular"
-                    ELSE IF NamedAxioms(r) \ ImplNamed(r) # {} THEN "axiom_missing"
-                    ELSE IF ImplNamed(r) \ NamedAxioms(r) # {} THEN "extra_clause"
+                    ELSE IF NamedAxioms(r, M) \ ImplNamed(r) # {} THEN "axiom_missing"
+                    ELSE IF ImplNamed(r) \ NamedAxioms(r, M) # {} THEN "extra_clause"
                     ELSE IF Has(r, "cand") THEN "ok"
                     ELSE IF (\E a \in C : Sat(r, a)) <=> ExpectedSat(r) THEN "ok"
                     ELSE "documented_satisfiability_differs"
@@ -206,6 +225,19 @@ Verdict(r) ==
                     ELSE IF (\E a \in C : Sat(r, a)) <=> HasWitness(r) THEN "ok"
                     ELSE IF HasWitness(r) THEN "unsatisfiable_but_witness_exists"
                     ELSE "satisfiable_without_witness"
+
+Verdict(r) ==
+    IF r.outcome = "ValueError"
+    THEN (IF MayRefuse(r) \/ MustRefuse(r) THEN "ok" ELSE "unexpected_ValueError")
+    ELSE IF r.outcome # "ok" THEN "unexpected_" \o r.outcome
+    ELSE IF MustRefuse(r) THEN "should_have_been_refused"
+    ELSE IF ~WF(r) THEN "literal_out_of_range"
+    ELSE IF Cardinality(Keys(r)) # r.nvars THEN "names_not_distinct"
+    ELSE LET G == Groups(r)
+             Ms == Matchings(r, G)
+         IN  IF Ms = {} \/ ~Covered(r, G) THEN "variables_differ_from_documented"
+             ELSE IF \E M \in Ms : VerdictWith(r, G, M) = "ok" THEN "ok"
+             ELSE VerdictWith(r, G, CHOOSE M \in Ms : TRUE)
 
 Init == pos = 1
 Next == /\ pos <= Len(Trace)
